@@ -83,6 +83,9 @@ def snapshot(ag):
     return (np.array(ag.command_array, copy=True).tolist(), ag.genetic_age, ag.fitness, ag.fit_set, tuple(ag.constants))
 
 
+STAGE = {"now": ""}      # what the real code was doing when a watchdog fired
+
+
 PARENT_STATES = ["evaluated", "evaluated, cache valid", "cache valid, flag cleared (reset_fitness)", "printed, never evaluated"]
 
 
@@ -125,6 +128,7 @@ def real_oracle(ctx, rep):
             with watchdog(5.0):
                 with warnings.catch_warnings():
                     warnings.simplefilter("ignore")
+                    STAGE["now"] = "generation"
                     a, b = gen(), gen()
                     for parent in (a, b):
                         why = wf(parent.command_array.tolist(), D, ops, size)
@@ -140,6 +144,7 @@ def real_oracle(ctx, rep):
                             put_in_state(a, state, 1.5)
                             rep.count("parent_state", state)
                             before = snapshot(a)
+                            STAGE["now"] = "mutation"
                             child = mut(a)
                             rep.case(("mut", str(before[0]), probs, str(child.command_array.tolist())), True)
                             rep.count("mutation", mut.last_mutation_type)
@@ -154,6 +159,7 @@ def real_oracle(ctx, rep):
                         put_in_state(parent, state, fitv)
                         rep.count("parent_state", state)
                     ba, bb = snapshot(a), snapshot(b)
+                    STAGE["now"] = "crossover"
                     c1, c2 = cx(a, b)
                     rep.count("crossover")
                     for c, own in ((c1, ba), (c2, bb)):
@@ -173,6 +179,7 @@ def real_oracle(ctx, rep):
                         rel.fitness, a.fitness = 0.25, 1.5
                         pa, pr = (a, rel) if rng.random() < 0.5 else (rel, a)
                         bpa, bpr = snapshot(pa), snapshot(pr)
+                        STAGE["now"] = "crossover"
                         c1, c2 = cx(pa, pr)
                         rep.count("crossover_relatives", f"variant {variant}")
                         rep.case(("cxrel", str(bpa[0]), str(bpr[0]), str(c1.command_array.tolist())), True)
@@ -183,7 +190,12 @@ def real_oracle(ctx, rep):
                                 rep.disagree("crossover child keeps fit_set / fitness (the regenerated body clears both through the "
                                              "mutable view whatever the cut)", {**case, "child": c.command_array.tolist(), "parents": [bpa[0], bpr[0]]})
         except Timeout:
-            rep.violate("generation / mutation / crossover did not terminate within 5 s on a non-degenerate configuration", "C04:hang", case)
+            if STAGE["now"].startswith("usability"):
+                # the child was produced; printing / simplifying it took too long (nested powers make the algebraic simplifier expand
+                # huge integer powers: a resource question of the CAS, see C03) - not a statement about the variation operators
+                rep.count("usability_check_timeout")
+            else:
+                rep.violate(f"{STAGE['now']} did not terminate within 5 s on a non-degenerate configuration", "C04:hang", case)
         except Exception as exc:
             rep.violate(f"{type(exc).__name__}: {exc} on a non-degenerate configuration", "C04:raised", case)
 
@@ -203,6 +215,7 @@ def check_child(rep, case, what, child, parents, before, D, ops, size, want_age,
     own = before[0] if own_parent is None else own_parent
     if stack != own[0] and child.fit_set:
         rep.violate(f"{what}: child differs from its parent but is marked evaluated", "C04:stale-flag", c)
+    STAGE["now"] = "usability check of the child (evaluate, print, simplify)"
     try:
         x = np.array([[0.7] * max(D, 1), [1.3] * max(D, 1)])
         with np.errstate(all="ignore"):
